@@ -116,6 +116,16 @@ def asis_roots(op, arg, recipes):  # noqa: C901, PLR0911, PLR0912
             e = arg.get("extra")
             return list(e.values()) if isinstance(e, dict) else []
         return list(arg.extra.values())
+    if t in ("SatModel", "SatOpt"):
+        # `more: Dict[str, Any]`: values are Any; with the saturator recipe they are the untyped extra data
+        if load:
+            if not isinstance(arg, dict):
+                return []
+            if "nm_saturator" in recipes:
+                return [v for k, v in arg.items() if k != "a"]
+            e = arg.get("more")
+            return list(e.values()) if isinstance(e, dict) else []
+        return list(arg.more.values())
     if t == "KwModel" and collect:
         if load:
             return [v for k, v in arg.items() if k != "a"] if isinstance(arg, dict) else []
